@@ -419,3 +419,60 @@ func subloggerDiagnostics(viol func(violation)) {
 	}
 	slog.VerifResetGlobals()
 }
+
+// returnedListIsACopy: what GetWriter / GetWriterBy hand out is the caller's to keep and to change: writing into it is
+// no writer operation, the logger's destinations stay what its own set/add/remove/reset history denotes (C03, C10).
+func returnedListIsACopy(viol func(violation)) {
+	for _, members := range []int{1, 2, 3} {
+		for _, which := range []string{"normal", "error", "level(Info)"} {
+			slog.VerifResetGlobals()
+			own := make([]*recorder, members)
+			l := slog.New("kept").SetLevel(slog.InfoLevel).SetColorMode(false)
+			other := &recorder{}
+			l.SetWriter(other).SetErrorWriter(other)
+			for k := range own {
+				own[k] = &recorder{}
+				switch which {
+				case "normal":
+					if k == 0 {
+						l.SetWriter(own[k])
+					} else {
+						l.AddWriter(own[k])
+					}
+				case "error":
+					if k == 0 {
+						l.SetErrorWriter(own[k])
+					} else {
+						l.AddErrorWriter(own[k])
+					}
+				default:
+					l.AddLevelWriter(slog.InfoLevel, own[k])
+				}
+			}
+			lvl := slog.InfoLevel
+			if which == "error" {
+				lvl = slog.ErrorLevel
+			}
+			foreign := &recorder{}
+			in := map[string]any{"list": which, "members": members, "caller": "kept := l.GetWriterBy(level).(LWs); kept[0] = NewLogWriter(foreign); kept = append(kept[:0], …)"}
+			kept, ok := l.GetWriterBy(lvl).(slog.LWs)
+			if !ok || len(kept) != members {
+				viol(violation{What: "GetWriterBy does not hand out the list of the destinations selected for the severity", Input: in, Actual: fmt.Sprintf("%T %v", l.GetWriterBy(lvl), kept)})
+				continue
+			}
+			kept[0] = slog.NewLogWriter(foreign)
+			kept = append(kept[:0], slog.NewLogWriter(foreign))
+			_ = kept
+			l.Logit(context.Background(), lvl, "after-the-caller-wrote-into-the-list.")
+			for k := range own {
+				if msg := wholeOnce(own[k].take(), "after-the-caller-wrote-into-the-list."); msg != "" {
+					viol(violation{What: "writing into the list GetWriterBy handed out changed the logger's destinations: " + msg, Input: in})
+				}
+			}
+			if n := len(foreign.take()); n != 0 {
+				viol(violation{What: "a destination the logger was never given received its record (the caller wrote it into the list GetWriterBy handed out)", Input: in, Actual: n})
+			}
+		}
+	}
+	slog.VerifResetGlobals()
+}
